@@ -249,6 +249,43 @@ def _shard_main(args):
     return {'stats': r.stats.export(), 'fail': f}
 
 
+def survey(modname, tier, seed, n):
+    """Development aid: run n generated cases + sweeps without stopping, bucket every
+    discrepancy by (kind, finding, first label) and print one example per bucket."""
+    import importlib
+    import hypothesis
+    from hypothesis import given, settings, HealthCheck, Phase
+    mod = importlib.import_module(modname)
+    buckets = {}
+
+    def note(case):
+        out = mod.run_case(case)
+        for d in out.discs:
+            key = (d.kind, d.finding, out.labels[0] if out.labels else '')
+            b = buckets.setdefault(key, [0, None, None])
+            b[0] += 1
+            if b[1] is None or len(canon(case)) < len(canon(b[1])):
+                b[1], b[2] = case, d.detail
+    if hasattr(mod, 'sweeps'):
+        for name, cases, _ in mod.sweeps(tier):
+            for c in cases:
+                note(c)
+
+    @hypothesis.seed(seed)
+    @settings(max_examples=n, database=None, deadline=None, suppress_health_check=list(HealthCheck),
+              phases=[Phase.generate])
+    @given(mod.strategy(tier))
+    def prop(case):
+        note(case)
+    prop()
+    for key in sorted(buckets, key=str):
+        cnt, case, detail = buckets[key]
+        print('%6d  %s' % (cnt, key))
+        print('        e.g. %s' % canon(case)[:300])
+        print('        %s' % str(detail)[:300])
+    return 0
+
+
 def write_replay(pid, case, discs):
     d = os.path.join(OUT, 'replays')
     os.makedirs(d, exist_ok=True)
